@@ -82,6 +82,7 @@ def run(ctx):
                 try: P, H = hes.hessenbergize(An)
                 except Exception as e: viol(f'C09:raises:{cls}{suffix}', f'hessenbergize raised {e!r}', inp); continue
                 finally: hes.householder_matrix = orig_hm
+                if not cm.all_finite(P, H): viol(f'C09:nonfinite:{cls}{suffix}', 'hessenbergize returned NaN / inf', inp); continue
                 if P.shape != (n, n) or H.shape != (n, n): viol(f'C09:shape:{cls}{suffix}', 'wrong output shapes', inp, (P.shape, H.shape)); continue
                 if not np.array_equal(quaternion.as_float_array(An), quaternion.as_float_array(A0)): viol(f'C09:input-modified:{cls}{suffix}', 'hessenbergize modified its input', inp)
                 eu = max(fro(mmq(hq(P), P) - utils.quat_eye(n)), fro(mmq(P, hq(P)) - utils.quat_eye(n)))
